@@ -246,6 +246,17 @@ pub fn run<P: Property>(tier: Tier) -> i32 {
     let mut exhaustive_phases: Vec<String> = vec![];
     let mut phase_stats: Vec<Value> = vec![];
 
+    // library code under test may print to stdout: point fd 1 at /dev/null while cases run
+    let saved_stdout = unsafe {
+        let saved = libc::dup(1);
+        let devnull = libc::open(b"/dev/null\0".as_ptr() as *const libc::c_char, libc::O_WRONLY);
+        if saved >= 0 && devnull >= 0 {
+            libc::dup2(devnull, 1);
+            libc::close(devnull);
+        }
+        saved
+    };
+
     // ---- 1. committed replays (regression tier) -------------------------------------------
     let rdir = super::verif_root().join("replays").join(P::ID);
     let mut files: Vec<_> = std::fs::read_dir(&rdir)
@@ -419,6 +430,13 @@ pub fn run<P: Property>(tier: Tier) -> i32 {
                     }
                 }
             }
+        }
+    }
+
+    unsafe {
+        if saved_stdout >= 0 {
+            libc::dup2(saved_stdout, 1);
+            libc::close(saved_stdout);
         }
     }
 
